@@ -8,7 +8,10 @@ from dataclasses import dataclass, field
 from typing import Dict, List, Optional
 
 VERIF = os.path.dirname(os.path.dirname(os.path.abspath(__file__)))
-EVIDENCE_DIR = os.path.join(VERIF, "evidence")
+# SKV_EVIDENCE_DIR: development runs against a scratch copy (SKV_REPO) must
+# not overwrite the evidence of the registered checks
+EVIDENCE_DIR = os.environ.get("SKV_EVIDENCE_DIR") or os.path.join(VERIF,
+                                                                 "evidence")
 KNOWN = os.path.join(VERIF, "known_findings.json")
 
 
